@@ -14,6 +14,7 @@ use http::{Method, StatusCode, Version};
 #[allow(unused_imports)] use std::io::{Seek, SeekFrom};
 #[allow(unused_imports)] use std::borrow::Cow;
 #[allow(unused_imports)] use std::fs;
+#[allow(unused_imports)] use std::borrow::Borrow;
 use url::Url;
 use std::marker::PointeeSized;
 use encoding_rs::Encoding;
